@@ -29,6 +29,52 @@ TESTS = ["defined", "undefined", "none", "odd", "even", "string", "number", "map
          "eq(1)", "ne(2)", "lt(3)", "gt(0)", "in([1])", "escaped"]
 
 
+# ---------------------------------------------------------------------------------------------------------------------
+# every registered filter / test applied to CONSTANT operands: the optimizer folds such calls at compile time, so whatever
+# the filter computes (including the order in which it iterates a set or dict it builds) is written into the generated source
+# ---------------------------------------------------------------------------------------------------------------------
+CONST_OPERANDS = [
+    "'see http://example.com/ and www.x.org now <b>&</b> mailto:a@b.cd tel:123'", "'hello World foo Bar'", "'%s and %s'",
+    "42", "-3.75", "[3, 1, 2, 1]", "['b', 'A', 'c', 'a']",
+    "[{'x': 2, 'y': 'b'}, {'x': 1, 'y': 'a'}, {'x': 2, 'y': 'c'}]",
+    "{'b': 1, 'a': [1, 2], 'c': 'x y', 'class': 'k1 k2', 'id': none}", "(1, 'a')", "none", "true",
+]
+FILTER_ARGS = {
+    "attr": ["'x'", "'upper'"], "batch": ["2", "2, 'f'"], "center": ["20"], "default": ["'x'", "'x', true"], "d": ["'x'"],
+    "dictsort": ["", "true, 'value'", "reverse=true"], "format": ["1, 2"], "groupby": ["'x'", "'y', default='z'", "0"],
+    "indent": ["2", "2, true, true"], "join": ["','", "'-', 'x'"], "map": ["'upper'", "attribute='x'", "'string'"],
+    "max": ["", "attribute='x'"], "min": ["", "attribute='x'"], "reject": ["'odd'", "'string'", ""],
+    "select": ["'odd'", "'string'", ""], "rejectattr": ["'x'", "'x', 'odd'"], "selectattr": ["'x'", "'y', 'equalto', 'a'"],
+    "replace": ["'o', '0'", "'o', '0', 1"], "round": ["1", "1, 'floor'"], "slice": ["2", "2, 'f'"],
+    "sort": ["", "true", "attribute='x'", "case_sensitive=true"], "sum": ["", "attribute='x'", "start=10"],
+    "tojson": ["", "2"], "truncate": ["5", "9, true, '..', 0"], "unique": ["", "true", "attribute='x'"],
+    "urlize": ["", "nofollow=true", "rel='external ugc me'", "40, true, target='_blank', rel='a b c d'",
+               "extra_schemes=['tel:', 'x:'], nofollow=true, rel='me'"],
+    "wordwrap": ["7", "7, false"], "xmlattr": ["", "false"], "trim": ["", "'x'"], "int": ["", "5", "0, 16"],
+    "float": ["", "1.5"], "filesizeformat": ["", "true"], "first": [""], "last": [""],
+}
+TEST_ARGS = {"divisibleby": ["2"], "sameas": ["none"], "in": ["[1, 'a', 42]"], "eq": ["42"], "equalto": ["42"], "==": ["42"],
+             "ne": ["1"], "!=": ["1"], "lt": ["5"], "<": ["5"], "lessthan": ["5"], "le": ["5"], "<=": ["5"], "gt": ["5"],
+             ">": ["5"], "greaterthan": ["5"], "ge": ["5"], ">=": ["5"]}
+
+
+def const_fold_templates(filter_names, test_names):
+    """[(kind, name, template)]: one small template per (filter, argument combination) / per test with every constant operand"""
+    out = []
+    for f in sorted(filter_names):
+        for args in FILTER_ARGS.get(f, [""]):
+            call = "%s(%s)" % (f, args) if args else f
+            body = "".join("{{ %s|%s }}\n{{ (%s|%s)|list|string }}\n" % (op, call, op, call) for op in CONST_OPERANDS)
+            out.append(("filter", f, body))
+    for t in sorted(test_names):
+        if not t.isidentifier():
+            continue   # operator spellings (==, <, ...) are reachable as `is eq` etc.
+        for args in TEST_ARGS.get(t, [""]):
+            call = "%s(%s)" % (t, args) if args else t
+            out.append(("test", t, "".join("{{ %s is %s }}\n" % (op, call) for op in CONST_OPERANDS)))
+    return out
+
+
 class TGen:
     def __init__(self, rng, i18n=False, ext=False, depth=3):
         self.r = rng
